@@ -127,7 +127,7 @@ class HashStepOracles(Oracles):
             self.observe("contains-arg", frozenset(tags_of(idv)))
             return mkbool(self.choose("avail", self.DOMAINS["avail"]))
         # ---- extension queries
-        if p.startswith("Exts::") or path.startswith("Exts::"):
+        if (p.startswith("Exts::") or path.startswith("Exts::")) and args:
             e = recv(it, args[0])
             role = self.exts_role(e)
             if role is not None and name in ("num_ext_dir", "get_unique_extension", "single_dir", "num_exts_l", "num_exts_r", "has_ext", "get"):
